@@ -18,6 +18,10 @@ THEOREMS = [
     "Mtv.Ige.decryptTemp_of_conformant",
     "Mtv.Ige.tempWrap_roundtrip",
     "Mtv.Ige.encryptTemp_conformant",
+    "Mtv.Ige.ige_buffers_unchanged",
+    "Mtv.Ige.tempKey_inputs_differ",
+    "Mtv.Ige.tempKeys_separate",
+    "Mtv.Ige.tempKeys_no_partial_memo",
     "Mtv.Ige.orig_decryptTemp_unpadded_panics",
     "Mtv.Ige.orig_tempPad_sixteen",
     "Mtv.Ige.orig_tempKeys_leading_zero",
@@ -61,6 +65,18 @@ RULE = ("operations on the real internal/aes_ige code: doAES256IGEencrypt/decryp
         "result line of the ordinary operation — the first concurrent result that differs from the member's result alone, "
         "else that — judged by the same oracle and answered by the Lean driver member by member; a panic in a goroutine "
         "is that member's result; conc=same unless some member's concurrent result differed from its result alone. "
+        "One argument changing from call to call (c05one.go): for generateTempKeys, DecryptMessageWithTempKeys (a conformant "
+        "peer's answer), EncryptMessageWithTempKeys, encryptMessageWithTempKeys, Encrypt, Decrypt, generateAESIGE (both "
+        "directions; new operation c05.kdf through the verif hook), NewCipher+encrypt, NewCipher+decrypt, MessageKey (new "
+        "operation c05.mkey) and for EVERY argument position of each: base, v1, v2, base, v3, v4 where only that argument "
+        "differs and every other one is equal by value; the v_k: a new random value, one bit flipped in the last / first / "
+        "some byte of the part the function reads, the same head with a new tail, the same tail with a new head, 1..3 leading "
+        "zero bytes (nonces), one step longer / shorter (messages, block data); plus the direction as the changing argument "
+        "(c05.kdf 0/1, c05.enc/c05.dec, Encrypt/Decrypt on the same values) and the key-exchange operations mixed under one "
+        "fixed nonce. Every chain runs as c05.seq (fresh private buffers per call) and as c05.seqip (every argument in the "
+        "SAME long-lived caller memory — one array layout for the whole sequence, the two long-lived big.Ints — refilled in "
+        "place, no decoy pass, no collection between the calls, memory checks on); c05.par batches with one argument shared "
+        "by all goroutines. Every member judged by the independent derivation / conformant peer / IGE definition. "
         "distinct = distinct operation lines; each is compared with the Lean register model (Lean AES-256/SHA-1 "
         "plugged in) and judged by the independent reference implementation")
 
